@@ -172,6 +172,52 @@ Theorem C12_order_irrelevant_all_error : forall Ms Ms',
   (forall rs, resolve_all Ms <> ROk rs) -> forall rs', resolve_all Ms' <> ROk rs'.
 Proof. exact order_irrelevant_all_error. Qed.
 
+(* name clashes: the item of the component's ENUMERATED wins over value references of the same name (the hypotheses do
+   not mention value_reference at all); an ENUMERATED without the item, or a component that is not a type reference,
+   means the value reference *)
+Theorem C12_enum_default_precedence : forall Ms M referenced tg name tg0 variants e d0 v,
+  definition Ms (lookup_fuel Ms) M referenced = Found (tg0, TEnumerated variants e, d0) ->
+  find (fun v => str_eqb name (fst v)) variants = Some v ->
+  resolve_default Ms M (TRef referenced tg) (Some (Ref name)) = ROk (Some (LEnumVariant referenced (fst v))).
+Proof. exact enum_default_precedence. Qed.
+
+Theorem C12_enum_default_other_item_is_value : forall Ms M referenced tg name tg0 variants e d0,
+  definition Ms (lookup_fuel Ms) M referenced = Found (tg0, TEnumerated variants e, d0) ->
+  find (fun v => str_eqb name (fst v)) variants = None ->
+  resolve_default Ms M (TRef referenced tg) (Some (Ref name))
+  = (let^ l := resolve_literal Ms M (Ref name) in ROk (Some l)).
+Proof. exact enum_default_other_item. Qed.
+
+Theorem C12_non_reference_default_is_value : forall Ms M t name,
+  ref_name t = None ->
+  resolve_default Ms M t (Some (Ref name)) = (let^ l := resolve_literal Ms M (Ref name) in ROk (Some l)).
+Proof. exact non_reference_default_is_value. Qed.
+
+Definition defaults_of (s : string) : option (list (option literal)) :=
+  match tokenize dev_mode (s2n s) with
+  | Ok ts => match parse ts with
+             | POk u => match resolve_single u with
+                        | ROk r =>
+                            Some (flat_map (fun d => match d with
+                                                     | (_, (_, TSequence fs _, _)) => map (fun f => snd (snd f)) fs
+                                                     | _ => []
+                                                     end) (m_definitions r))
+                        | _ => None
+                        end
+             | _ => None
+             end
+  | _ => None
+  end.
+
+(* `medium` is an item of Level and a value: Level DEFAULT medium is the item (with and without the value assignment),
+   INTEGER DEFAULT medium is 50, a component of an ENUMERATED without that item is 50 *)
+Example C12_enum_default_precedence_nonvacuous :
+  defaults_of "M DEFINITIONS ::= BEGIN Level ::= ENUMERATED { low, medium, high } Other ::= ENUMERATED { red } medium INTEGER ::= 50 S ::= SEQUENCE { level Level DEFAULT medium, n INTEGER (0..100) DEFAULT medium, c Other DEFAULT medium } END"
+  = Some [Some (LEnumVariant (s2n "Level") (s2n "medium")); Some (LInteger 50); Some (LInteger 50)] /\
+  defaults_of "M DEFINITIONS ::= BEGIN Level ::= ENUMERATED { low, medium, high } S ::= SEQUENCE { level Level DEFAULT medium } END"
+  = Some [Some (LEnumVariant (s2n "Level") (s2n "medium"))].
+Proof. split; vm_compute; reflexivity. Qed.
+
 (* ---- witnesses, computed on the whole front-end model (tokenizer, parser, resolver) ---- *)
 
 Definition txt (s : string) : list Z := map Z.of_N (s2n s).
@@ -362,3 +408,7 @@ Print Assumptions C12_subst_nonvacuous.
 Print Assumptions C12_error_nonvacuous.
 Print Assumptions C12_refuted_load_order_matters_with_duplicate_module_names.
 Print Assumptions C12_order_nonvacuous.
+Print Assumptions C12_enum_default_precedence.
+Print Assumptions C12_enum_default_other_item_is_value.
+Print Assumptions C12_non_reference_default_is_value.
+Print Assumptions C12_enum_default_precedence_nonvacuous.
